@@ -20,7 +20,13 @@ func scriptContent[T any](v T, insideStringLiteral bool, errs ...error) (string,
 		return "", errors.Join(errs...)
 	}
 	if vs, ok := any(v).(string); ok && insideStringLiteral {
-		return replace(vs, jsStrReplacementTable), nil
+		out := replace(vs, jsStrReplacementTable)
+		// A string that starts with "{" directly after a static "$", e.g. `Total: ${{ amount }}`,
+		// must not open a template literal interpolation.
+		if strings.HasPrefix(out, "{") {
+			out = `\u007b` + out[1:]
+		}
+		return out, nil
 	}
 	jd, err := json.Marshal(v)
 	if err != nil {
